@@ -164,10 +164,54 @@ func honestProof(ws *worldState, account ecommon.Address, slot ecommon.Hash) *pr
 
 // --- messages
 
+// Own writer / reader of the wire format's var-uint and var-bytes (written from the format description:
+// < 0xFD one byte; <= 0xFFFF 0xFD + u16 LE; <= 0xFFFFFFFF 0xFE + u32 LE; else 0xFF + u64 LE), so that
+// expected values and the "message parses" term do not depend on the codec of the code under test.
+func encVarUint(v uint64) []byte {
+	switch {
+	case v < 0xFD:
+		return []byte{byte(v)}
+	case v <= 0xFFFF:
+		return []byte{0xFD, byte(v), byte(v >> 8)}
+	case v <= 0xFFFFFFFF:
+		return []byte{0xFE, byte(v), byte(v >> 8), byte(v >> 16), byte(v >> 24)}
+	}
+	return append([]byte{0xFF}, le64(v)...)
+}
+
 func encVarBytes(b []byte) []byte {
-	s := common.NewZeroCopySink(nil)
-	s.WriteVarBytes(b)
-	return s.Bytes()
+	return append(encVarUint(uint64(len(b))), b...)
+}
+
+// decVarBytes reads one var-bytes item from b; ok=false when b is too short.
+func decVarBytes(b []byte) (item, rest []byte, ok bool) {
+	if len(b) < 1 {
+		return nil, nil, false
+	}
+	var n uint64
+	w := 1
+	switch b[0] {
+	case 0xFD:
+		w = 3
+	case 0xFE:
+		w = 5
+	case 0xFF:
+		w = 9
+	}
+	if len(b) < w {
+		return nil, nil, false
+	}
+	if w == 1 {
+		n = uint64(b[0])
+	} else {
+		for i := w - 1; i >= 1; i-- {
+			n = n<<8 | uint64(b[i])
+		}
+	}
+	if uint64(len(b)-w) < n {
+		return nil, nil, false
+	}
+	return b[w : w+int(n)], b[w+int(n):], true
 }
 
 type message struct {
@@ -194,7 +238,10 @@ func makeMessage(i int, argLen int, leadZero bool) message {
 	m := message{TxHash: crypto.Keccak256(tag, []byte("tx")), CrossChainID: crypto.Keccak256(tag, []byte("ccid")),
 		FromContract: crypto.Keccak256(tag, []byte("from"))[:20], ToContract: crypto.Keccak256(tag, []byte("to"))[:20],
 		Method: "unlock", ToChain: destChainID}
-	m.Args = make([]byte, argLen+2)
+	if argLen < 2 {
+		argLen = 2 // room for the grinding counter
+	}
+	m.Args = make([]byte, argLen)
 	for k := range m.Args {
 		m.Args[k] = byte(i*31 + k)
 	}
@@ -239,6 +286,9 @@ type c23Case struct {
 	Imports  []c23Import `json:"imports"`
 }
 
+// Args lengths incl. every var-uint prefix boundary of the message encoding
+var c23ArgLens = []int{2, 3, 32, 200, 2, 32, 200, 252, 253, 254, 255, 256, 65534, 65535, 65536}
+
 // lengths of the "short value that is a tail of keccak(message)" slots
 var c23ShortLens = []int{1, 2, 3, 8, 16, 20, 31}
 
@@ -257,7 +307,7 @@ func genC23(t *rapid.T) c23Case {
 		NAcc:   rapid.IntRange(1, ev.Scale(16, 50)).Draw(t, "nacc"),
 		NSlot:  rapid.IntRange(1, ev.Scale(16, 50)).Draw(t, "nslot"),
 		NMsg:   rapid.IntRange(1, 8).Draw(t, "nmsg"),
-		ArgLen: rapid.SampledFrom([]int{0, 1, 32, 200}).Draw(t, "arglen"),
+		ArgLen: rapid.SampledFrom(c23ArgLens).Draw(t, "arglen"),
 	}
 	if r := os.Getenv("PEVM_ROUTER"); r != "" {
 		c.Router = r // development aid only: pin the router (never set by the driver)
@@ -808,22 +858,20 @@ func runC23With(ctx *ev.Ctx, c c23Case, hook txHook) {
 	c23Flush()
 }
 
+// extraParses: three var-bytes, a u64, three var-bytes (trailing bytes are tolerated by the decoder).
 func extraParses(b []byte) bool {
-	src := common.NewZeroCopySource(b)
-	for i := 0; i < 3; i++ {
-		if _, eof := src.NextVarBytes(); eof {
-			return false
-		}
+	ok := true
+	for i := 0; i < 3 && ok; i++ {
+		_, b, ok = decVarBytes(b)
 	}
-	if _, eof := src.NextUint64(); eof {
+	if !ok || len(b) < 8 {
 		return false
 	}
-	for i := 0; i < 3; i++ {
-		if _, eof := src.NextVarBytes(); eof {
-			return false
-		}
+	b = b[8:]
+	for i := 0; i < 3 && ok; i++ {
+		_, b, ok = decVarBytes(b)
 	}
-	return true
+	return ok
 }
 
 func sortedSlots(a *acctState) []ecommon.Hash {
